@@ -82,6 +82,7 @@ func zzStubSm3New() hash.Hash { zzLastHash = &zzRecHash{}; return zzLastHash }
 // public-key coordinates with leading zero bytes; IDs of 8192 bytes or more are refused.
 //
 //verif:property C01
+//verif:property C13
 //verif:expect-reach end
 //verif:bound public key coordinates with exactly kx, ky significant bytes for kx, ky in {1,2,31,32} (content symbolic), user id of each length 0..3, 32, 33 (quick) / 0..16, 31..33, 255, 256 and the boundary lengths 8191 and 8192 with zero content (thorough)
 //verif:stub github.com/tjfoc/gmsm/sm3.New zzStubSm3New
